@@ -279,6 +279,42 @@ static void kernel(const std::vector<std::string>& t)
     d->processMsopPkt(b, 2);
     fprintf(OUT, "k overflow %d\n", (int)(d->point_cloud_->points.size() == 0 && L(2) != 0));
   }
+  else if (k == "overflow2")
+  {
+    // K overflow2 type1 n1 type2 n2 dt : two decoders in one process, open frames of n1 / n2 points; an MSOP-dispatched packet reaches
+    // the first at wall-clock second 1000 and the second dt seconds later, then the first once more (refilled) dt seconds after that.
+    // Which of the three frames were discarded?  (own child process: the report throttles are process-wide statics)
+    fflush(OUT);
+    pid_t pid = fork();
+    if (pid == 0)
+    {
+      g_fake_wall = true; g_wall = 1000;
+      RSDecoderParam p; p.wait_for_difop = false;
+      auto d1 = DecoderFactory<PC>::createDecoder((LidarType)L(2), p);
+      auto d2 = DecoderFactory<PC>::createDecoder((LidarType)L(4), p);
+      int nerr = 0;
+      d1->regCallback([&nerr](const Error&) { nerr++; }, [](uint16_t, double) {});
+      d2->regCallback([&nerr](const Error&) { nerr++; }, [](uint16_t, double) {});
+      d1->point_cloud_ = std::make_shared<PC>(); d2->point_cloud_ = std::make_shared<PC>();
+      d1->point_cloud_->points.resize((size_t)L(3)); d2->point_cloud_->points.resize((size_t)L(5));
+      uint8_t b[2] = {0x55, 0xAA};
+      d1->processMsopPkt(b, 2);
+      int r1 = d1->point_cloud_->points.size() == 0 && L(3) != 0;
+      g_wall = 1000 + (time_t)L(6);
+      d2->processMsopPkt(b, 2);
+      int r2 = d2->point_cloud_->points.size() == 0 && L(5) != 0;
+      d1->point_cloud_->points.resize((size_t)L(3));
+      g_wall = 1000 + 2 * (time_t)L(6);
+      d1->processMsopPkt(b, 2);
+      int r3 = d1->point_cloud_->points.size() == 0 && L(3) != 0;
+      fprintf(OUT, "k overflow2 %d %d %d\n", r1, r2, r3);
+      fflush(OUT);
+      _exit(0);
+    }
+    int st = 0; waitpid(pid, &st, 0);
+    fseek(OUT, 0, SEEK_END);
+    if (!(WIFEXITED(st) && WEXITSTATUS(st) == 0)) fprintf(OUT, "k overflow2 crash %d\n", WIFSIGNALED(st) ? WTERMSIG(st) : WEXITSTATUS(st));
+  }
   else fprintf(OUT, "k ? %s\n", k.c_str());
 }
 
